@@ -58,6 +58,30 @@ WF(t) ==
     [] t.k = "forpost" -> WF(t.post) /\ WF(t.body)
     [] OTHER -> TRUE
 
+\* ---- T_nest: nested loops whose INNER loop is one Seq value run once per outer iteration (the body of a
+\*      `for` term is built once, seq.For(cond, post, <value>)), so that a second run of the same loop value
+\*      starts while the first is still unwinding on the Go stack.  The inner body chooses by the tape between
+\*      two alternatives out of: a signal, a yield followed by a signal, a second tape-guarded pair of signals --
+\*      iterations that suspend, that complete synchronously, and that leave the loop, in every order.
+\*      Both loops have tape conditions (an outer loop without condition never returns into the frames of an
+\*      earlier inner run); the shortest history with a suspension, a Break in the resumed driver, a nested
+\*      second run that completes an iteration synchronously and ends by its condition reads 8 tape entries.
+Distinct2(S) == {pr \in S \X S : pr[1] # pr[2]}
+NestSigs == {[k |-> "sig", t |-> t] : t \in {"normal", "break", "continue"}}
+Th(e)      == [rl |-> 0, pre |-> <<>>, body |-> [k |-> "ret", e |-> e]]
+IfTh(a, b) == [rl |-> 0, pre |-> <<>>, body |-> [k |-> "ifret", id |-> 4, a |-> a, b |-> b]]
+NestAlt == Sigs \cup {[k |-> "bind", v |-> [k |-> "lit", v |-> 5], f |-> Th(s)] : s \in NestSigs}
+                \cup {[k |-> "delay", f |-> IfTh(pr[1], pr[2])] : pr \in Distinct2(NestSigs)}
+NestBody  == {[k |-> "delay", f |-> IfTh(pr[1], pr[2])] : pr \in Distinct2(NestAlt)}
+NestInner(ps) == {[k |-> "for", c |-> [id |-> 2], p |-> p, body |-> x] : p \in ps, x \in NestBody}
+EffTerm == [k |-> "delay", f |-> [rl |-> 0, pre |-> <<[k |-> "eff", id |-> 1]>>, body |-> [k |-> "ret", e |-> [k |-> "sig", t |-> "normal"]]]]
+\* full = FALSE: inner post present, outer without post (the quick tier); TRUE: every combination
+NestedLoopTerms(full) ==
+  LET inner == NestInner(IF full THEN Ps ELSE {[id |-> 3]})
+      bodies == inner \cup {[k |-> "comb", a |-> EffTerm, b |-> i] : i \in inner}
+                      \cup (IF full THEN {[k |-> "brk", body |-> i] : i \in inner} ELSE {}) IN
+  {t \in {[k |-> "for", c |-> [id |-> 2], p |-> p, body |-> b] : p \in (IF full THEN Ps ELSE {None}), b \in bodies} : WF(t)}
+
 TermsUpTo(n, withRecv) ==
   LET tab == BuildTerms(<<>>, n, withRecv) IN {t \in UNION {tab[i] : i \in 1..n} : WF(t)}
 =============================================================================
